@@ -179,6 +179,14 @@ func init() {
 				strings.Count(b, "continue") == 0
 		}
 		o.def("walScanStopsAtTheLimit", "Bool", lbool(scan), "badgerWAL.getEntries: the scan loop adds an entry's size, breaks when the sum exceeds maxSize (unless it is the first entry) and has no continue — the shape of Model/Wal's getEntries.go")
+		// C04 / C06: a compaction removes every key below the snapshot index in the one batch that writes the
+		// snapshot (no bound on their number): a store object opened later finds its first key at the snapshot
+		compact := false
+		if fd := funcDecl(parseFile("storage/wal/badger.go"), "badgerWAL", "deleteEntriesUntilIndex"); fd != nil {
+			b := norm(fd.Body)
+			compact = strings.Contains(b, "ifindex>=untilIdx{break}keys=append(keys,string(item.Key()))}returnnil})") && strings.Count(b, "break") == 1
+		}
+		o.def("walCompactionRemovesEveryKeyBelow", "Bool", lbool(compact), "badgerWAL.deleteEntriesUntilIndex collects every entry key below the index (the scan ends only at the index) and deletes them in the caller's batch")
 		o.def("replicaChangeChecksGroupLoaded", "Bool", lbool(guard), "partition.proposeAddNode / proposeRemoveNode look at the partition's raft group under raftMu and return RaftNotLoadedOnNodeErr when it is not loaded (the catalogue change before may have unloaded it)")
 		o.def("replicaAddAppliedUnconditionally", "Bool", lbool(uncond), "partition.addNode lists the node first and unconditionally; loading the raft group comes after and cannot undo the listing")
 	})
